@@ -86,7 +86,7 @@ def sweep_model(drv, rec):
 
 def one_run(ctx, drv, rng):
     algo = rng.choice(["naive", "priority", "priority-pool", "overbook", "template"])
-    tps = rng.choice([1, 2, 10, 100])
+    tps = rng.choice([1, 2, 10, 100, 1, 2, 10, 100, 3, 7, 12, 60])     # also rates whose tick length is not a whole number of microseconds
     probs = rng.choice([(0.3, 0.1, 0.6), (0.0, 0.0, 1.0), (0.0, 1.0, 0.0), (0.5, 0.5, 0.0), (0.25, 0.25, 0.5)])
     params = {"duration": rng.choice([0.5, 2, 20, 60, 200]) if tps <= 10 else rng.choice([0.005, 2, 20]), "ticks_per_second": tps,
               "waiting_seconds_mean": rng.choice([0.3, 1.0, 5.0, 1000.0]), "num_pipelines": rng.randint(1, 4), "num_operators": rng.choice([1, 3, 5]),
@@ -210,10 +210,13 @@ def uncontended(ctx, drv, rng):
     ops, need = [], 0
     for i in range(nops):
         op = p.new_operator([ops[-1]] if ops else None)
-        k = rng.randint(0, 4)
-        io = rng.randint(0, 3)
-        op.add_segment(Segment(baseline_cpu_seconds=k / tps, cpu_scaling="const", memory_gb=0.5, storage_read_gb=io * 20 / tps))
-        need += max(1, k + io)
+        tot = 0
+        for _ in range(rng.choice([1, 1, 2, 3])):          # several segments per operator, some of which take no tick at all
+            k = rng.randint(0, 4) if rng.random() < 0.7 else 0
+            io = rng.randint(0, 3) if rng.random() < 0.6 else 0
+            op.add_segment(Segment(baseline_cpu_seconds=k / tps, cpu_scaling="const", memory_gb=0.5, storage_read_gb=io * 20 / tps))
+            tot += k + io
+        need += max(1, tot)                                 # an operator occupies at least one tick; a segment need not
         ops.append(op)
     arrive = rng.randint(0, 5)
 
